@@ -177,6 +177,11 @@ def extract_blocks(
                 return form
             forms = []
             for pi in range(num_sub_elements):
+                if arity == 1:
+                    # A linear form has one block per sub element
+                    f = fs.split(form, pi)
+                    forms.append(None if f.empty() else f)
+                    continue
                 form_i: list[object | None] = []
                 for pj in range(num_sub_elements):
                     f = fs.split(form, pi, pj)
